@@ -63,6 +63,15 @@ func keyLen(t *rapid.T) int { return rapid.SampledFrom([]int{16, 24, 32}).Draw(t
 // key - caches of expanded keys or AEAD instances - is exercised across cases, not only within one).
 func keyGen(t *rapid.T) []byte {
 	n := keyLen(t)
+	switch rapid.IntRange(0, 9).Draw(t, "text") {
+	case 0: // a key whose bytes are all text of one kind: hex digits, decimal digits, base64 characters, spaces
+		alpha := rapid.SampledFrom([]string{"0123456789abcdef", "0123456789ABCDEF", "0123456789", "ABCDEFGHIJKLMNOPQRSTUVWXYZabcdefghijklmnopqrstuvwxyz0123456789+/=", " ", "0"}).Draw(t, "alphabet")
+		k := make([]byte, n)
+		for j := range k {
+			k[j] = alpha[rapid.IntRange(0, len(alpha)-1).Draw(t, "c")]
+		}
+		return k
+	}
 	if rapid.IntRange(0, 2).Draw(t, "pooled") != 0 {
 		return g.BytesLen(n).Draw(t, "key")
 	}
@@ -246,14 +255,22 @@ func runCBC(c cbcCase, r *pb.Rec) error {
 type keyCase struct {
 	KeyLen int
 	Fn     int
+	Fill   byte
 }
 
 func genKey(t *rapid.T) keyCase {
-	return keyCase{KeyLen: rapid.IntRange(0, 40).Draw(t, "klen"), Fn: rapid.IntRange(0, 3).Draw(t, "fn")}
+	return keyCase{KeyLen: rapid.OneOf(rapid.IntRange(0, 40), rapid.SampledFrom([]int{48, 64, 96, 128})).Draw(t, "klen"), Fn: rapid.IntRange(0, 3).Draw(t, "fn"), Fill: rapid.SampledFrom([]byte{7, 7, '0', 'a', 'F', '9', ' ', 0}).Draw(t, "fill")}
 }
 
 func runKey(c keyCase, r *pb.Rec) error {
-	key := bytes.Repeat([]byte{7}, c.KeyLen)
+	if c.KeyLen < 0 || c.KeyLen > 1024 {
+		return nil
+	}
+	fill := c.Fill
+	if fill == 0 && c.KeyLen%2 == 1 {
+		fill = 7
+	}
+	key := bytes.Repeat([]byte{fill}, c.KeyLen) // also keys that read as hex or decimal text of another key length
 	valid := c.KeyLen == 16 || c.KeyLen == 24 || c.KeyLen == 32
 	iv := make([]byte, 16)
 	nonce := make([]byte, 12)
@@ -573,7 +590,33 @@ type cbcBadCase struct {
 func genCBCBad(t *rapid.T) cbcBadCase {
 	nb := rapid.IntRange(1, 4).Draw(t, "nblocks")
 	d := g.BytesLen(16*nb).Draw(t, "blocks")
-	switch rapid.IntRange(0, 4).Draw(t, "tailkind") {
+	switch rapid.IntRange(0, 6).Draw(t, "tailkind") {
+	case 5: // several pad bytes wrong, related to one another: the same difference in two or four of them, or three differences that cancel
+		n := rapid.IntRange(3, 16).Draw(t, "n")
+		for i := 0; i < n; i++ {
+			d[len(d)-1-i] = byte(n)
+		}
+		delta := byte(rapid.IntRange(1, 255).Draw(t, "delta"))
+		pos := rapid.SliceOfNDistinct(rapid.IntRange(0, n-1), 2, min(4, n), func(x int) int { return x }).Draw(t, "pos")
+		switch len(pos) {
+		case 3:
+			d2 := byte(rapid.IntRange(1, 255).Draw(t, "delta2"))
+			d[len(d)-1-pos[0]] ^= delta
+			d[len(d)-1-pos[1]] ^= d2
+			d[len(d)-1-pos[2]] ^= delta ^ d2
+		default:
+			for _, p := range pos {
+				d[len(d)-1-p] ^= delta
+			}
+		}
+	case 6: // several pad bytes replaced by arbitrary values
+		n := rapid.IntRange(2, 16).Draw(t, "n")
+		for i := 0; i < n; i++ {
+			d[len(d)-1-i] = byte(n)
+		}
+		for i, k := 0, rapid.IntRange(2, n).Draw(t, "k"); i < k; i++ {
+			d[len(d)-1-rapid.IntRange(0, n-1).Draw(t, "p")] = rapid.Byte().Draw(t, "v")
+		}
 	case 0: // valid padding
 		n := rapid.IntRange(1, 16).Draw(t, "n")
 		for i := 0; i < n; i++ {
@@ -727,7 +770,7 @@ func init() {
 	pb.Register("cbc", pb.Options{Twins: 3, Base: 8000, Required: []string{"full-block padding", "empty plaintext", "in place", "24/32-byte key", "key used again after 300 other keys", "secret-based entry points of the package used before"},
 		Rule: "keys 16/24/32, 16-byte IV, plaintext 0..80 biased to block boundaries, fresh (dirty) or documented in-place dst; oracle crypto/cipher CBC over reference PKCS#7, length helpers, decrypt == plaintext; non-trivial = block-aligned plaintext or in-place layout"},
 		genCBC, runCBC)
-	pb.Register("key_sizes", pb.Options{Twins: 3, Base: 800, Rule: "every key length 0..40 for the four AES entry points; oracle error <=> length not in {16,24,32}; non-trivial = invalid length"}, genKey, runKey)
+	pb.Register("key_sizes", pb.Options{Twins: 3, Base: 800, Rule: "every key length 0..40 and 48, 64, 96, 128 for the four AES entry points, the key filled with a binary value or with one character that reads as a hex / decimal digit or a space; oracle error <=> length not in {16,24,32}; non-trivial = invalid length"}, genKey, runKey)
 	pb.Register("gcm", pb.Options{Twins: 3, Base: 8000, Required: []string{"tag bit flipped", "nonce corrupted", "aad corrupted", "in place", "non-standard nonce size", "nonce longer than one AES block", "plaintext longer than 256 bytes", "same key, two nonce sizes", "empty nonce rejected"},
 		Rule: "keys 16/24/32, nonce 1..40 bytes and 64/100/255/256/1000, AAD 0..40 and up to 5000, plaintext 0..80 and (1 in 16) up to 65537, in-place layouts; single-bit flips over ciphertext||tag, nonce, AAD, truncation, extension; oracle crypto/cipher GCM Seal/Open; non-trivial = corruption or in-place case"},
 		genGCM, runGCM)
@@ -735,6 +778,6 @@ func init() {
 		Rule: "round trip for data 1..64 (1 in 4: k*block-1..k*block+1, k 1..3) and block 1..255 (with spare capacity in the input); un-padding of arbitrary byte strings and of near-valid paddings (one pad byte wrong, pad 0, pad > block, length not a multiple); oracle reference strict un-padding (error <=> rejected, equal prefix); non-trivial = rejected multiple-of-block input or full-block/large-block round trip"},
 		genPad, runPad)
 	pb.Register("cbc_unpad", pb.Options{Twins: 3, Base: 8000, Required: []string{"ciphertext length illegal", "bad padding rejected", "padding accepted"},
-		Rule: "arbitrary 1-4 block strings with valid / one-byte-wrong / out-of-range padding tails, reference-encrypted with raw CBC, optionally truncated/extended, then AESCBCDecrypt (fresh or in-place dst); oracle error <=> reference strict un-padding rejects, equal length and content; non-trivial = rejected"},
+		Rule: "arbitrary 1-4 block strings with valid / one-byte-wrong / several-bytes-wrong (equal or cancelling differences, arbitrary values) / out-of-range padding tails, reference-encrypted with raw CBC, optionally truncated/extended, then AESCBCDecrypt (fresh or in-place dst); oracle error <=> reference strict un-padding rejects, equal length and content; non-trivial = rejected"},
 		genCBCBad, runCBCBad)
 }
